@@ -60,7 +60,8 @@ c_tables(void)
     }
 }
 
-const cmd_t cmds_tables[] = {
+static const cmd_t cmds_tables[] = {
     { "tables", c_tables },
     { NULL, NULL }
 };
+REGISTER(cmds_tables)
